@@ -24,16 +24,44 @@ Tlv12(t, body) == <<t>> \o U16(Len(body)) \o body
 Bodies(n) == {Zeros(n), [i \in 1..n |-> 255], [i \in 1..n |-> i], [i \in 1..n |-> IF i % 2 = 0 THEN 7 ELSE 4],
               [i \in 1..n |-> IF i = 2 THEN 5 ELSE IF i = 4 THEN 9 ELSE 1]}
 \* every registered link-state TLV type x every sub-length 0..16 x body pattern; the same with a lying length field
-LsGrid == {[ep |-> "LinkState.unpack", b |-> Tlv22(t, bd)] : t \in LsAttrTypes \cup {0, 1, 1023, 65535}, bd \in UNION {Bodies(n) : n \in 0..16}}
+LsGrid(lazy) == {[ep |-> "LinkState.unpack", b |-> Tlv22(t, bd)] : t \in LsAttrTypes \cup {0, 1, 1023, 65535}, bd \in UNION {Bodies(n) : n \in 0..16}}
           \cup {[ep |-> "LinkState.unpack", b |-> U16(t) \o U16(n + 3) \o Zeros(n)] : t \in LsAttrTypes, n \in {0, 1, 7}}
-SidGrid == {[ep |-> "BGPPrefixSID.unpack", b |-> Tlv12(t, bd)] : t \in PrefixSidTypes \cup {0, 2, 255}, bd \in UNION {Bodies(n) : n \in 0..16}}
+SidGrid(lazy) == {[ep |-> "BGPPrefixSID.unpack", b |-> Tlv12(t, bd)] : t \in PrefixSidTypes \cup {0, 2, 255}, bd \in UNION {Bodies(n) : n \in 0..16}}
+\* OPEN messages (body after the header) carrying one capability of every code the decoder interprets (and unknown ones)
+\* with every value length 0..16 x body pattern, alone and after a valid multiprotocol capability, one parameter each or
+\* packed together; plus capability / parameter length fields that lie
+CapCodes == {0, 1, 2, 5, 64, 65, 69, 70, 71, 73, 128, 131, 255}
+Cap(c, v) == <<c, Len(v)>> \o v
+Param(c) == <<2, Len(c)>> \o c
+OpenBody(params) == <<4>> \o U16(65002) \o U16(90) \o <<10, 0, 0, 2>> \o <<Len(params)>> \o params
+MpCap == Cap(1, <<0, 1, 0, 1>>)
+CapGrid(lazy) == {[ep |-> "Open.parse", b |-> OpenBody(Param(Cap(c, bd)))] : c \in CapCodes, bd \in UNION {Bodies(n) : n \in 0..16}}
+           \cup {[ep |-> "Open.parse", b |-> OpenBody(Param(MpCap) \o Param(Cap(c, bd)))] : c \in CapCodes, bd \in UNION {Bodies(n) : n \in {0, 1, 3, 4, 5, 8}}}
+           \cup {[ep |-> "Open.parse", b |-> OpenBody(Param(MpCap \o Cap(c, bd) \o Cap(2, <<>>)))] : c \in CapCodes, bd \in UNION {Bodies(n) : n \in {0, 2, 4, 6, 7, 12}}}
+           \cup {[ep |-> "Open.parse", b |-> OpenBody(<<2, n + 2, c, n + k>> \o Zeros(n))] : c \in CapCodes, n \in {0, 4}, k \in {1, 200}}
+           \cup {[ep |-> "Open.parse", b |-> <<4>> \o U16(65002) \o U16(90) \o <<10, 0, 0, 2>> \o <<k>> \o Param(MpCap)] : k \in {0, 1, 5, 7, 255}}
+\* UPDATE messages (body after the header) with one attribute of every type code the decoder interprets x flags x value
+\* length 0..16 x body pattern, after the mandatory attributes; with and without the extended-length bit
+AttrCodes == {0, 1, 2, 3, 4, 5, 6, 7, 8, 9, 10, 14, 15, 16, 17, 18, 22, 23, 25, 29, 32, 40, 128, 255}
+BaseAttrs == <<64, 1, 1, 0, 64, 2, 6, 2, 1, 0, 0, 253, 233, 64, 3, 4, 10, 0, 0, 1>>
+UpdBody(attrs) == U16(0) \o U16(Len(attrs)) \o attrs \o <<24, 10, 1, 1>>
+AttrGrid(lazy) == {[ep |-> "Update.parse", b |-> UpdBody(BaseAttrs \o <<f, t, Len(bd)>> \o bd)] : f \in {64, 192, 128}, t \in AttrCodes, bd \in UNION {Bodies(n) : n \in 0..16}}
+            \cup {[ep |-> "Update.parse", b |-> UpdBody(BaseAttrs \o <<f + 16, t>> \o U16(Len(bd)) \o bd)] : f \in {64, 192}, t \in AttrCodes, bd \in UNION {Bodies(n) : n \in {0, 1, 4, 9}}}
+\* MP_REACH_NLRI / MP_UNREACH_NLRI of every family the decoder knows (and unknown ones) with NLRI octets from the patterns
+AfiSafis == {<<1, 1>>, <<1, 2>>, <<1, 4>>, <<1, 73>>, <<1, 128>>, <<1, 133>>, <<1, 134>>, <<2, 1>>, <<2, 4>>, <<2, 128>>, <<2, 133>>, <<25, 65>>, <<25, 70>>,
+             <<16388, 71>>, <<16388, 72>>, <<1, 71>>, <<2, 73>>, <<0, 0>>, <<65535, 255>>}
+MpGrid(lazy) == {[ep |-> "Update.parse", b |-> UpdBody(BaseAttrs \o <<144, 14>> \o U16(5 + nhl + Len(bd)) \o U16(a[1]) \o <<a[2], nhl>> \o Zeros(nhl) \o <<0>> \o bd)] :
+              a \in AfiSafis, nhl \in {0, 4, 12, 16, 24, 32}, bd \in UNION {Bodies(n) : n \in {0, 1, 2, 3, 4, 5, 8, 12, 13, 16}}}
+          \cup {[ep |-> "Update.parse", b |-> U16(0) \o U16(6 + Len(bd)) \o <<144, 15>> \o U16(3 + Len(bd)) \o U16(a[1]) \o <<a[2]>> \o bd] :
+              a \in AfiSafis, bd \in UNION {Bodies(n) : n \in {0, 1, 2, 3, 4, 5, 8, 12, 13, 16}}}
 \* all octet strings of length <= MAXSHORT
 RECURSIVE Strings(_)
 Strings(n) == IF n = 0 THEN {<<>>} ELSE LET p == Strings(n - 1) IN p \cup {Append(s, x) : s \in {q \in p : Len(q) = n - 1}, x \in 0..255}
-ShortInputs == {[ep |-> "*", b |-> s] : s \in Strings(MAXSHORT)}
+ShortInputs(lazy) == {[ep |-> "*", b |-> s] : s \in Strings(MAXSHORT)}
 
 VARIABLE vec
-Vecs == CASE FAMILY = "lsgrid" -> LsGrid [] FAMILY = "sidgrid" -> SidGrid [] FAMILY = "short" -> ShortInputs
+Vecs == CASE FAMILY = "lsgrid" -> LsGrid(0) [] FAMILY = "sidgrid" -> SidGrid(0) [] FAMILY = "short" -> ShortInputs(0)
+          [] FAMILY = "capgrid" -> CapGrid(0) [] FAMILY = "attrgrid" -> AttrGrid(0) [] FAMILY = "mpgrid" -> MpGrid(0)
 Init == vec \in Vecs
 Next == FALSE /\ UNCHANGED vec
 Emit == PrintT("@W " \o ToJson(vec))
